@@ -223,6 +223,24 @@ class World:
         p = self.prog
         if kind == "register":
             p.register(p.obj[op["ds"]], op["alias"], op["impl"], cache_kind=p.node[op["ds"]].get("cache", "default"))
+        elif kind == "overload_stacked":
+            # @ds.overload(a1) @ds.overload(a2) def fn(...): one new dataset registered under several aliases, one decorator each
+            from .build import _body_impl, _key, make_fn, RecordingCache, FaultyCache
+
+            ds = p.obj[op["ds"]]
+            impl = op["impl"]
+            argnames = list(impl.get("args", {}))
+            fn = make_fn(impl["fn"], argnames, [p.ref(impl["args"][a]) for a in argnames], _body_impl(impl["fn"]))
+            new = fn
+            for a in reversed(op["aliases"]):
+                new = ds.overload(_key(a))(new)
+            ck = p.node[op["ds"]].get("cache", "default")
+            if ck == "recording":
+                new.set_cache(RecordingCache(impl["fn"]))
+            elif ck == "nocache":
+                new.set_cache(labrea.cache.NoCache())
+            if impl.get("id"):
+                p.obj[impl["id"]] = new
         elif kind == "set_dispatch":
             d = op["dispatch"]
             p.obj[op["ds"]].set_dispatch(p.obj[d["n"]] if isinstance(d, dict) else labrea.Option(d))
@@ -242,6 +260,16 @@ class World:
             p.obj[op["ds"]].enable_effects()
         else:
             raise ValueError(f"unknown op {kind}")
+
+    def raw(self, node, o, kind="evaluate"):
+        """(ok, live value | exception) of node.<kind>(o) — for oracles that need Python values, not texts."""
+        self.op_index += 1
+        self.calls_in_op = {}
+        with self.active():
+            try:
+                return True, getattr(self.prog.obj[node], kind)(copy.deepcopy(o))
+            except Exception as e:  # noqa: BLE001
+                return False, e
 
     # ------------------------------------------------------------------ twins
     def twin(self, **kw):
